@@ -3,3 +3,22 @@ add("C04",
     "Trusted: TLC's evaluation of Poly.tla, the 60-line projection rows.py (snapping audited: deviation <= 1e-9 relative, transfer error < 5% of tolerance else unjudged). Hints (z3) are untrusted. Inputs bounded: <= 6 variables, small integer/dyadic coefficients.",
     "TLC trace validation of recorded calls against a TLA+ contract, certificate/witness checking in exact integer arithmetic",
     "DESIGN.md 4, 6/C04")
+_OPS_NOTE = ("Trusted: TLC's evaluation of Poly.tla/Contracts.tla, the projection (rows.py/clauses.pcontract, snapping audited), "
+             "and the exact re-confirmation of every witness on the unsnapped floats. Hints (z3) and the Python mirror of the clause "
+             "lists are untrusted (a wrong hint fails to verify -> unjudged). Inputs bounded: <= 7 variables, <= 3 rows per list, "
+             "small integer / dyadic coefficients; what TLC certifies holds for all real points of the box |v|<=1000.")
+add("C01",
+    "The obligation of C01 is a TLA+ definition (Contracts!ComposeSoundAt / ComposeSoundClauses: result assumptions and both components honouring their contracts imply both operand assumptions and the result guarantees, by case split over which assumption row is broken). Every recorded compose_tactics call of the real library (9 wiring schemas, kept variables, simplify, tactic orders) is one trace event that TLC judges with exact Farkas certificates per (case, conclusion row), or refutes by evaluating the whole formula at a witness point.",
+    _OPS_NOTE, "TLC trace validation against Contracts.tla; per-case Farkas certificates / witness evaluation in integer arithmetic", "DESIGN.md 4, 6/C01")
+add("C02",
+    "Contracts!QuotientSoundClauses: dividend assumptions plus divisor and quotient honouring their contracts imply divisor assumptions, quotient assumptions and dividend guarantees. Dividends are built by composing the divisor with a hidden partner (so a quotient exists) or are unrelated; all additional_inputs shapes, flags and tactic orders; judged by TLC as for C01.",
+    _OPS_NOTE, "TLC trace validation against Contracts.tla; per-case Farkas certificates / witness evaluation", "DESIGN.md 6/C02")
+add("C08",
+    "Contracts!ExactClauses: result assumptions <=> A1/\\A2 and (result a/\\g) <=> (A1/\\A2/\\G1/\\G2), each direction row by row, certified by TLC for every recorded merge (shared inputs, shared outputs, same interface, disjoint, clashing; planted duplicated/scaled/weakened rows; both operand orders).",
+    _OPS_NOTE, "TLC trace validation against Contracts.tla; Farkas certificates both directions", "DESIGN.md 6/C08")
+add("C15",
+    "Contracts!KeepsClauses (every operand guarantee row over the result's interface is implied by result a/\\g) and ExactClauses for unconnected compositions, judged by TLC on recorded compose (both call orders, simplify on/off, kept variables) and merge calls whose operands overlap on interface-level guarantees.",
+    _OPS_NOTE, "TLC trace validation against Contracts.tla; Farkas certificates / witness evaluation", "DESIGN.md 6/C15")
+add("C16",
+    "TLC computes the substituted contract itself (Contracts!Renamed: coefficient addition on integer rows, RenameSet on the interface) and demands semantic equality with the recorded result of rename_variable (assumptions <=>, a/\\g <=>), equal interface sets, IncompatibleArgsError exactly for an input/output clash, identity for absent source or equal names.",
+    _OPS_NOTE, "TLC trace validation: spec-computed expected result vs recorded result, equivalence by Farkas certificates", "DESIGN.md 6/C16")
